@@ -10,7 +10,7 @@
      src/core/consensus/blockchain.rs  add_block_failure / add_block_transactions_back,
                                       the golden-ticket count check of Blockchain::validate
      src/core/consensus_thread.rs    the golden ticket the timer path hands to bundle_block
-   as they are at /repo HEAD e1b5241 (after the fix: commits listed in known_findings.txt).
+   as they are at /repo HEAD 6a5c788 (after the fix: commits listed in known_findings.txt).
    No proofs here.
 
    What is abstract.  The economic part of generate_consensus_values (fees,
@@ -248,9 +248,6 @@ Section Producer.
   (* Block::validate's verdict on the ticket carried by a GoldenTicket transaction: its key is
      not the all-zero key and GoldenTicket::create(parent hash, random, key).validate(parent difficulty) *)
   Variable gt_ok : chain -> tx -> bool.
-  (* Mempool::golden_ticket_solves_tip, the screen of bundle_block (fix e0300b2): the solution
-     only -- Block::validate additionally refuses a ticket naming the all-zero key (fix b8552b5) *)
-  Variable gt_screen : chain -> tx -> bool.
   (* BurnFee::return_routing_work_needed_to_produce_block_in_nolan(burnfee, ts, previous ts, heartbeat) *)
   Variable work_needed : N -> N -> N -> N -> N.
   (* Blockchain::check_total_supply after the block was wound: utxoset + graveyard + treasury +
@@ -423,22 +420,9 @@ Section Producer.
   (* ---------------------------------------------------------------- the listed defect classes
      (known_findings.txt, property=C07), as a decidable predicate on one production:
      [gt], [drained] = what bundle_block hands to Block::create, [b] = the block it returns *)
-  Definition Known_C07 (dbg : bool) (n : node) (creator ts : N) (gt : option tx) (drained : list tx)
-             (b : block) : bool :=
-    let bc := create_pre n creator ts gt drained in
+  Definition Known_C07 (drained : list tx) : bool :=
     (* type-issuance-pool *)
-    (0 <? count_type TIssuance drained)
-    (* pooled-input-ages-past-window: a transaction of the block does not validate on the parent
-       state (a pooled transaction whose input has left the window while it was pooled) *)
-    || negb (forallb (tx_valid (n_chain n) (n_ledger n)) (b_txs b))
-    (* left-out-transaction-carried-the-work: what create kept carries less than the work needed *)
-    || match v_tip (view (n_chain n)) with
-       | Some p => nsum (map t_work (b_txs (fst bc)))
-                   <? work_needed (par_burnfee p) ts (par_ts p) (v_heartbeat (view (n_chain n)))
-       | None => false
-       end
-    (* zero-key-ticket-passes-screen *)
-    || match gt with Some g => negb (gt_ok (n_chain n) g) | None => false end.
+    0 <? count_type TIssuance drained.
 
   (* ---------------------------------------------------------------- the pool *)
   Record mpool := mkM {
@@ -508,7 +492,8 @@ Section Producer.
   (* outcome of bundle_block: no block and why, or the block *)
   Inductive bundled := GateClosed | NoStake | CreateFailed | Bundled (b : block).
 
-  (* fix e0300b2: the ticket handed over is checked like Block::validate will check it; one that
+  (* fixes e0300b2, 6a5c788: the ticket handed over is checked exactly like Block::validate will
+     check it (key not all-zero, solution for the tip); one that
      does not solve the tip is removed from the ticket map (under the tip's hash and under its
      own target) and the bundle goes on without a ticket *)
   Definition del_gt (h : N) (g : list (N * tx)) : list (N * tx) :=
@@ -518,7 +503,7 @@ Section Producer.
         (del_gt (t_target g) (del_gt (tip_hash_of n) (m_gts m))).
   Definition screen_ticket (n : node) (m : mpool) (gt : option tx) : option tx * mpool :=
     match gt with
-    | Some g => if gt_screen (n_chain n) g then (Some g, m) else (None, drop_ticket n m g)
+    | Some g => if gt_ok (n_chain n) g then (Some g, m) else (None, drop_ticket n m g)
     | None => (None, m)
     end.
 
@@ -630,6 +615,57 @@ Definition young_tx (key_block : N -> N) (gp next : N) (t : tx) : bool :=
   forallb (fun k => next <=? key_block k + gp) (t_inputs t).
 Definition young_pool (key_block : N -> N) (gp next : N) (l : list tx) : bool :=
   forallb (young_tx key_block gp next) l.
+(* Blockchain::remove_block_transactions after a block was added (fix df3ca14): a pooled
+   transaction stays iff its inputs are still spendable in the ledger AND inside the window for the
+   next block (ATR / Issuance-typed ones are exempt from the window test; neither is ever pooled
+   with inputs); then delete_transactions takes out what the block carried and recomputes the
+   work cache and the reservations *)
+Definition window_exempt (t : tx) : bool := is_type TATR t || is_type TIssuance t.
+Definition revalidate (key_block : N -> N) (gp next : N) (spendable : tx -> bool) (confirmed : list N)
+           (txs : list tx) : list tx :=
+  filter (fun t => negb (existsb (N.eqb (t_sig t)) confirmed))
+         (filter (fun t => spendable t && (window_exempt t || young_tx key_block gp next t)) txs).
+
+(* the life of the pool between productions: transactions arrive through the intake on the current
+   node state, the tip moves (any new node state; the pool is re-validated), a bundle drains the
+   pool and create hands part of it back *)
+Section PoolLife.
+  Variable chain : Type.
+  Variable tx_valid : chain -> list N -> tx -> bool.
+  Variable key_block : N -> N.
+  Variable gp : N.
+  Variable next_of : chain -> N.
+
+  Inductive pev :=
+  | PIntake (t : tx)
+  | PTip (n' : node chain) (spendable : tx -> bool) (confirmed : list N)
+  | PShrink (f : tx -> bool).
+
+  Definition with_txs (m : mpool) (l : list tx) : mpool :=
+    mkM l (flat_map t_inputs l) (nsum (map t_work l)) (m_fresh m) (m_queue_empty m) (m_gts m).
+
+  Definition pstep (dbg : bool) (st : node chain * mpool) (e : pev) : res (node chain * mpool) :=
+    match e with
+    | PIntake t => do m1 <- add_transaction_if_validates chain tx_valid dbg (fst st) (snd st) t; Ok (fst st, m1)
+    | PTip n' sp cf =>
+        Ok (n', with_txs (snd st) (revalidate key_block gp (next_of (n_chain _ n')) sp cf (m_txs (snd st))))
+    | PShrink f => Ok (fst st, with_txs (snd st) (filter f (m_txs (snd st))))
+    end.
+
+  Fixpoint prun (dbg : bool) (st : node chain * mpool) (l : list pev) : res (node chain * mpool) :=
+    match l with
+    | [] => Ok st
+    | e :: r => do st1 <- pstep dbg st e; prun dbg st1 r
+    end.
+
+  Definition arrives_exempt (e : pev) : bool :=
+    match e with PIntake t => window_exempt t | _ => false end.
+
+  Definition PoolInv (st : node chain * mpool) : Prop :=
+    young_pool key_block gp (next_of (n_chain _ (fst st))) (m_txs (snd st)) = true
+    /\ Forall (fun t => window_exempt t = false) (m_txs (snd st)).
+End PoolLife.
+
 (* the rebroadcasts of block [next] consume outputs of block next - gp - 1 *)
 Definition rebroadcasts_due (key_block : N -> N) (gp next : N) (c : cvrec) : bool :=
   forallb (fun k => key_block k + gp + 1 =? next) (flat_map t_inputs (c_rebroadcasts c)).
@@ -658,7 +694,6 @@ Record rcase := mkRC {
   rc_cvV : cvrec;
   rc_valid : list (N * bool);
   rc_gt_ok : list (N * bool);
-  rc_gt_screen : list (N * bool);
   rc_key_block : list (N * N);
   rc_gp : N;
   rc_hchain : list (list N * N);
@@ -673,12 +708,11 @@ Definition rc_cvf (c : rcase) : unit -> list N -> block -> cvrec :=
   fun _ _ b => if b_signed b then rc_cvV c else rc_cvC c.
 Definition rc_validf (c : rcase) : unit -> list N -> tx -> bool := fun _ _ t => lookup_b (rc_valid c) (t_id t).
 Definition rc_gtf (c : rcase) : unit -> tx -> bool := fun _ t => lookup_b (rc_gt_ok c) (t_id t).
-Definition rc_gtsf (c : rcase) : unit -> tx -> bool := fun _ t => lookup_b (rc_gt_screen c) (t_id t).
 Definition rc_key_blockf (c : rcase) : N -> N :=
   fun k => match aget_unsorted k (rc_key_block c) with Some b => b | None => 0 end.
 
 Definition run_rcase (wn : N -> N -> N -> N -> N) (c : rcase) : list (list N) :=
-  round unit (rc_viewf c) (rc_cvf c) (rc_validf c) (rc_gtf c) (rc_gtsf c)
+  round unit (rc_viewf c) (rc_cvf c) (rc_validf c) (rc_gtf c)
         wn (fun _ _ _ => rc_supply_ok c) (lookup_l (rc_hchain c)) (lookup_l (rc_mroot c))
         true rc_node rc_node (rc_creator c) (rc_pool c) (rc_ts c) (rc_stake c) (rc_order c) (rc_block_hash c).
 
@@ -687,7 +721,7 @@ Definition rc_tip_hash (c : rcase) : N :=
   match v_tip (rc_view c) with Some p => par_hash p | None => 0 end.
 (* the ticket bundle_block goes on with: the pooled one for the tip, if it solves the tip *)
 Definition rc_gt (c : rcase) : option tx :=
-  fst (screen_ticket unit (rc_viewf c) (rc_gtsf c) rc_node (rc_pool c) (pick_gt (rc_pool c) (rc_tip_hash c))).
+  fst (screen_ticket unit (rc_viewf c) (rc_gtf c) rc_node (rc_pool c) (pick_gt (rc_pool c) (rc_tip_hash c))).
 Definition rc_drained (c : rcase) : list tx :=
   match rc_stake c with
   | Some s =>
@@ -702,9 +736,7 @@ Definition rc_created (c : rcase) : res block :=
          true rc_node (rc_creator c) (rc_ts c) (rc_gt c) (rc_drained c).
 Definition rc_pre (c : rcase) : block * cvrec :=
   create_pre unit (rc_viewf c) (rc_cvf c) rc_node (rc_creator c) (rc_ts c) (rc_gt c) (rc_drained c).
-Definition rc_known (wn : N -> N -> N -> N -> N) (c : rcase) (b : block) : bool :=
-  Known_C07 unit (rc_viewf c) (rc_cvf c) (rc_validf c) (rc_gtf c) wn
-            true rc_node (rc_creator c) (rc_ts c) (rc_gt c) (rc_drained c) b.
+Definition rc_known (c : rcase) : bool := Known_C07 (rc_drained c).
 Definition rc_accepts (wn : N -> N -> N -> N -> N) (c : rcase) (b : block) : res bool :=
   node_accepts unit (rc_viewf c) (rc_cvf c) (rc_validf c) (rc_gtf c) wn
                (fun _ _ _ => rc_supply_ok c) (lookup_l (rc_mroot c)) true rc_node b.
